@@ -703,7 +703,7 @@ func c19RunHistory(t *testing.T, col *Collector, h c19Hist, live []c19LiveField)
 func TestC19(t *testing.T) {
 	seed := envInt("VERIF_SEED", 1)
 	col := NewCollector("C19", seed)
-	n := 20
+	n := 32
 	if tier() == "thorough" {
 		n = 300
 	}
